@@ -24,7 +24,11 @@ RULE = ('three-way lock-step (nostd type | std counterpart | Lean model): string
         'shared_ptr op sequences (construct / copy / move / assign incl. self-assignment / nullptr / reset / release / adopt '
         '/ swap incl. self / conversions from std pointers / destroy) over 1-5 handle slots with instance-counting payloads, '
         'state of every handle and object printed after every op; variant set/get/get_if/holds/index/visit/copy; '
-        'function_ref calls. non-trivial = a well-formed line with at least 3 operations; distinct = distinct line')
+        'function_ref calls; further overloads of the same operations: compare(pos,n,const char*[,count]), mixed != / reversed == '
+        'with std::string and const char*, the default-constructed view, static-extent spans from whole containers (mismatch -> '
+        'terminate) and their operator[], the std::array constructors, nostd::data / nostd::size, handles built / assigned from '
+        'handles of a derived type, nullptr comparisons in both orders, variant move and selection by type / on a const variant, '
+        'function_ref bound to a (null) function pointer object. non-trivial = a well-formed line with at least 3 operations; distinct = distinct line')
 TRUSTED = ['libstdc++ std::string_view / unique_ptr / shared_ptr / variant / function as the reference the property names',
            'span: an index-checked slice written in the harness stands in for std::span (gnu++17 build)']
 ASSUMPTIONS = ['span operator[] out of bounds is checked only by assert (this harness build keeps asserts; the repo build has NDEBUG)']
@@ -65,7 +69,7 @@ def sv_ops(rng, a, b, m):
     ops = []
     for _ in range(m):
         k = rng.choice(['cmp', 'eq', 'ne', 'lt', 'gt', 'find', 'find', 'substr', 'substr', 'cmp3', 'cmp5', 'cmpc', 'hash', 'at',
-                        'size', 'iter', 'cstr', 'str', 'eqs', 'eqc', 'os'])
+                        'size', 'iter', 'cstr', 'str', 'eqs', 'eqc', 'os', 'cmp3c', 'cmp4c', 'nes', 'nec', 'ceq', 'dflt'])
         if k == 'find':
             ch = rng.choice(list(a) + [0, 0x61, 0xff]) if rng.random() < 0.8 else rng.randrange(256)
             ops.append(f'find {ch:02x} {pos_near(rng, len(a))}')
@@ -73,6 +77,10 @@ def sv_ops(rng, a, b, m):
             ops.append(f'substr {pos_near(rng, len(a))} {pos_near(rng, len(a))}')
         elif k == 'cmp3':
             ops.append(f'cmp3 {pos_near(rng, len(a))} {pos_near(rng, len(a))}')
+        elif k == 'cmp3c':
+            ops.append(f'cmp3c {pos_near(rng, len(a))} {pos_near(rng, len(a))}')
+        elif k == 'cmp4c':
+            ops.append(f'cmp4c {pos_near(rng, len(a))} {pos_near(rng, len(a))} {rng.choice([0, len(b), max(len(b) - 1, 0), rng.randrange(len(b) + 1)])}')
         elif k == 'cmp5':
             ops.append(f'cmp5 {pos_near(rng, len(a))} {pos_near(rng, len(a))} {pos_near(rng, len(b))} {pos_near(rng, len(b))}')
         elif k == 'at':
@@ -96,7 +104,8 @@ def gen_sp(rng):
     def oc():
         off = rng.randrange(n + 1); return off, rng.randrange(n - off + 1)
     for _ in range(rng.randrange(4, 14)):
-        k = rng.choice(['dyn', 'rng', 'copy', 'conv', 'empty', 'fix', 'convfix', 'vec', 'arr', 'carr', 'get', 'get', 'default'])
+        k = rng.choice(['dyn', 'rng', 'copy', 'conv', 'empty', 'fix', 'convfix', 'vec', 'arr', 'carr', 'get', 'get', 'default',
+                        'cfix', 'getf', 'arr2', 'util'])
         if k in ('dyn', 'rng', 'copy', 'conv', 'empty'):
             off, cnt = oc(); ops.append(f'{k} {off} {cnt}')
         elif k == 'fix':
@@ -105,8 +114,14 @@ def gen_sp(rng):
             ops.append(f'fix {N} {off} {cnt}')
         elif k == 'convfix':
             N = rng.choice([x for x in (0, 1, 2, 3, 4, 8) if x <= n]); ops.append(f'convfix {N} {rng.randrange(n - N + 1)}')
-        elif k in ('arr', 'carr'):
+        elif k in ('arr', 'carr', 'arr2', 'util'):
             if n >= 4: ops.append(k)
+        elif k == 'cfix':
+            ops.append(f'cfix {n if n in (0, 1, 2, 3, 4, 8) and rng.random() < 0.7 else rng.choice([0, 1, 2, 3, 4, 8])}')
+        elif k == 'getf':
+            N = rng.choice([x for x in (0, 1, 2, 3, 4, 8) if x <= n]); off = rng.randrange(n - N + 1)
+            i = rng.randrange(N) if N and rng.random() < 0.85 else rng.choice([N, N + 1, MAXU])
+            ops.append(f'getf {N} {off} {i}')
         elif k == 'get':
             off, cnt = oc()
             i = rng.randrange(cnt) if cnt and rng.random() < 0.9 else rng.choice([cnt, cnt + 1, MAXU])
@@ -131,7 +146,7 @@ def gen_ptr(rng, kind, nops):
             c = rng.random()
             if c < 0.15: ops.append(rng.choice(['ctor', 'ctor'] if shared else ['ctor', 'ctor.n']) + f' {h}')
             elif c < 0.6 or not liv:
-                ops.append(rng.choice(['ctorp', 'ctorp', 'ctorp.u', 'ctorp.su', 'ctorp.ss'] if shared else ['ctorp', 'ctorp', 'ctorp.su']) + f' {h}')
+                ops.append(rng.choice(['ctorp', 'ctorp', 'ctorp.u', 'ctorp.su', 'ctorp.ss', 'ctorp.d'] if shared else ['ctorp', 'ctorp', 'ctorp.su', 'ctorp.d']) + f' {h}')
             elif c < 0.8 and shared: ops.append(f'ctorc {h} {rng.choice(liv)}')
             else: ops.append(f'ctorm {h} {rng.choice(liv)}')
             alive[h] = True
@@ -143,7 +158,7 @@ def gen_ptr(rng, kind, nops):
         if shared:
             op = rng.choice(['dtor', 'asgc', 'asgc', 'asgc', 'asgm', 'asgm', 'asgn', 'asgp', 'asgp', 'swap', 'swap', 'get', 'get', 'eq'])
         else:
-            op = rng.choice(['dtor', 'asgm', 'asgm', 'asgm', 'asgn', 'asgp', 'asgp.su', 'reset', 'resetp', 'resetp', 'release', 'release',
+            op = rng.choice(['dtor', 'asgm', 'asgm', 'asgm', 'asgn', 'asgp', 'asgp.su', 'asgp.d', 'reset', 'resetp', 'resetp', 'release', 'release',
                              'adopt', 'adopt', 'del', 'swap', 'swap', 'tostd', 'get', 'get', 'eq'])
         if op in ('asgc', 'asgm', 'swap', 'eq'):
             ops.append(f'{op} {h} {g}')
@@ -191,12 +206,12 @@ def ref_unique(k, ops):
 def gen_var(rng):
     ops = []
     for _ in range(rng.randrange(5, 25)):
-        k = rng.choice(['set', 'set', 'get', 'get', 'getif', 'holds', 'index', 'visit', 'copy'])
+        k = rng.choice(['set', 'set', 'get', 'get', 'getif', 'holds', 'index', 'visit', 'copy', 'move', 'gett', 'getift', 'cget'])
         if k == 'set':
             v = rng.choice(['m', 'b:0', 'b:1', f'i:{rng.choice([0, -1, 2 ** 63 - 1, -2 ** 63, rng.randrange(-99, 99)])}',
                             's:' + hx(rand_bytes(rng, rng.randrange(0, 40)))])
             ops.append(f'set {v}')
-        elif k in ('get', 'getif', 'holds'):
+        elif k in ('get', 'getif', 'holds', 'gett', 'getift', 'cget'):
             ops.append(f'{k} {rng.randrange(4)}')
         else:
             ops.append(k)
@@ -206,8 +221,9 @@ def gen_var(rng):
 def gen_fr(rng):
     ops = []
     for _ in range(rng.randrange(2, 10)):
-        k = rng.choice(['call', 'call', 'copy', 'null'])
-        ops.append('null' if k == 'null' else f'{k} {rng.randrange(4)} {rng.choice([0, -1, 1000000, -1000000, rng.randrange(-1000, 1000)])}')
+        k = rng.choice(['call', 'call', 'copy', 'null', 'nullfp', 'callp'])
+        x = rng.choice([0, -1, 1000000, -1000000, rng.randrange(-1000, 1000)])
+        ops.append(k if k in ('null', 'nullfp') else f'callp {x}' if k == 'callp' else f'{k} {rng.randrange(4)} {x}')
     return 'fr ; ' + ' ; '.join(ops)
 
 
@@ -223,6 +239,16 @@ def corpus():
     c('sv 6100 61 ; cmp ; eq ; cmpc ; eqc ; hash', 'embedded-nul')
     c('sv 616263 - ; substr 3 1 ; substr 4 0 ; substr 3 18446744073709551615 ; find 63 2 ; find 63 3 ; cmp3 4 0 ; cmp5 0 1 1 0', 'positions-at-end')
     c('sp 0102030405 ; fix 3 1 3 ; fix 3 1 2 ; get 0 5 4 ; get 0 5 5', 'span-bounds')
+    # further overloads / entry points of the same operations (coverage audit)
+    c('sv 61620063 616200 ; cmp3c 0 2 ; cmp3c 5 0 ; cmp4c 0 3 3 ; cmp4c 0 3 2 ; cmp4c 4 0 0 ; cmp4c 5 0 0 ; nes ; nec ; ceq ; dflt', 'sv-cstr-overloads')
+    c('sv - - ; dflt ; nes ; nec ; ceq ; cmp3c 0 0 ; cmp4c 0 0 0 ; cmp3c 1 0', 'sv-empty-overloads')
+    c('sp 01020304 ; cfix 4 ; cfix 3 ; cfix 8 ; cfix 0 ; getf 4 0 3 ; getf 4 0 4 ; getf 0 4 0 ; getf 2 2 18446744073709551615 ; arr2 ; util', 'span-static-extent')
+    c('sp - ; cfix 0 ; cfix 1 ; getf 0 0 0', 'span-static-extent-empty')
+    c('shp 2 ; ctorp.d 0 ; ctorc 1 0 ; get 1 ; dtor 0 ; get 1 ; asgn 1', 'shared-from-derived')
+    c('up 2 ; ctorp.d 0 ; ctor 1 ; asgp.d 1 ; asgp.d 1 ; asgm 0 1 ; get 0 ; release 0 ; adopt 1 0', 'unique-from-derived')
+    c('var ; move ; set s:616263 ; move ; get 3 ; set i:-5 ; move ; visit', 'variant-move')
+    c('var ; gett 0 ; gett 1 ; getift 0 ; getift 3 ; cget 0 ; cget 2 ; set s:00 ; gett 3 ; gett 2 ; getift 3 ; getift 1 ; cget 3 ; cget 1 ; set b:1 ; gett 1 ; cget 1 ; getift 1', 'variant-by-type')
+    c('fr ; nullfp ; callp 41 ; callp -1000000 ; null', 'function-pointer-object')
     return out
 
 
@@ -246,8 +272,11 @@ def generate(rng, tier):
         line = rng.choice([gen_sv, gen_sp, gen_var, gen_fr, lambda r: gen_ptr(r, 'shp', 6), lambda r: gen_ptr(r, 'up', 6)])(rng)
         bad = rng.choice(['frob', 'get 9', 'substr 1', 'find 6 0', 'find 61 -1', 'substr 18446744073709551616 0', 'dyn 99 1', 'fix 5 0 0',
                           'ctorc 0 0', 'adopt 0 99', 'set i:9223372036854775808', 'set x', 'call 4 0', 'call 0 1000001', 'at 99',
-                          'asgc 0 7', 'del 0 0', 'ctor.x 0', 'get 4'])
+                          'asgc 0 7', 'del 0 0', 'ctor.x 0', 'get 4', 'cmp4c 0 0 99', 'cmp3c 0', 'cfix 5', 'getf 3 99 0', 'callp 1000001',
+                          'ctorp.dd 0', 'nullfp 0', 'dflt 0', 'gett 4', 'cget', 'getift 9'])
         ops = line.split(' ; ')
+        if bad == 'get 4' and ops[0] in ('shp 5', 'up 5'):
+            bad = 'get 5'        # five slots: `get 4` can be well-formed there (slot 4 alive); slot 5 never exists
         ops.insert(rng.randrange(1, len(ops) + 1), bad)
         out.append(Case(' ; '.join(ops), H, ('malformed',)))
     return out
@@ -290,6 +319,14 @@ def sv_expect(a, b, op):
     if k == 'cmp5':
         r = py_substr(a, int(t[1]), int(t[2])); s = py_substr(b, int(t[3]), int(t[4]))
         return 'oor' if r is None or s is None else str(cmp_bytes(r, s))
+    if k == 'cmp3c':
+        r = py_substr(a, int(t[1]), int(t[2])); return 'oor' if r is None else str(cmp_bytes(r, b.split(b'\0')[0]))
+    if k == 'cmp4c':
+        r = py_substr(a, int(t[1]), int(t[2])); return 'oor' if r is None else str(cmp_bytes(r, b[:int(t[3])]))
+    if k == 'nes': return str(int(a != b)) * 2
+    if k == 'nec': return str(int(a != b.split(b'\0')[0])) * 2
+    if k == 'ceq': return str(int(a == b.split(b'\0')[0]))
+    if k == 'dflt': return '0e' + str(cmp_bytes(a, b'')) + '1'
     if k == 'cmpc': return str(cmp_bytes(a, b.split(b'\0')[0]))
     if k == 'hash': return 'ok'
     if k == 'at': return hx(a[int(t[1]):int(t[1]) + 1])
@@ -312,7 +349,10 @@ def sp_expect(base, op):
     if k == 'convfix':
         N, off = int(t[1]), int(t[2]); return show(base[off:off + N])
     if k == 'vec': return show(base)
-    if k in ('arr', 'carr'): return show(base[:4])
+    if k in ('arr', 'carr', 'arr2', 'util'): return show(base[:4])
+    if k == 'cfix': return show(base) if int(t[1]) == len(base) else 'terminate'
+    if k == 'getf':
+        N, off, i = int(t[1]), int(t[2]), int(t[3]); return hx(base[off + i:off + i + 1]) if i < N else 'oob'
     if k == 'get':
         off, cnt, i = int(t[1]), int(t[2]), int(t[3]); return hx(base[off + i:off + i + 1]) if i < cnt else 'oob'
     if k == 'default': return '0:-'
